@@ -47,6 +47,11 @@ type world struct {
 	// the client" variants (exhaustive in groups A, B; in a part of the batches
 	// of group C).
 	nBase int
+	// fat: further association-data sources for data classes >= dFatBase (group J,
+	// e2ez_test.go): never-presented certificates of growing size, so that an
+	// RRset of at most four records exceeds 512 / 1232 / 4096 bytes on the wire.
+	// nil in the direct groups (those classes are not part of allKinds).
+	fat map[int]*x509.Certificate
 }
 
 // state is one TLS connection state handed to verifyDANE.
@@ -177,6 +182,9 @@ type kind struct {
 }
 
 func (k kind) String() string {
+	if k.data >= dFatBase {
+		return fmt.Sprintf("%d %d %d <%s>", k.usage, k.sel, k.mt, fatDataName(k.data))
+	}
 	return fmt.Sprintf("%d %d %d <%s>", k.usage, k.sel, k.mt, dataNames[k.data])
 }
 
@@ -246,6 +254,12 @@ func (w *world) concrete(k kind, st *state) miekgdns.TLSA {
 		target = w.stranger
 	case dMalformed:
 		data = malformed[(int(k.usage)+int(k.sel)*2+int(k.mt))%len(malformed)]
+	default:
+		// data classes of group J: a never-presented certificate of a given size
+		target = w.fat[k.data]
+		if target == nil {
+			panic(fmt.Sprintf("c13: data class %d has no certificate in this world", k.data))
+		}
 	}
 	if target != nil {
 		data = assoc(sel, mt, target)
